@@ -105,8 +105,10 @@ def relCls (a b : Text) : RelCls :=
   else if (split a).scheme != (split b).scheme then .other
   else if (split a).authority.isNone && (split b).authority.isNone && !isAbs (split a).path && !isAbs (split b).path then
     if (nsegs (split a).path).head? == some [cDot, cDot]
-        || (nsegs (Path.parent_or_empty (split b).path)).head? == some [cDot, cDot]
-        || nsegs (split a).path == [] || skipEmpty a b then .rootlessOther
+        || (nsegs (Path.parent_or_empty (split b).path)).head? == some [cDot, cDot] then .rootlessOther
+    else if nsegs (split a).path == [] then
+      (if nsegs (Path.parent_or_empty (split b).path) == [] || sdCond a b then .rootlessOther else .root)
+    else if skipEmpty a b then .rootlessOther
     else if sdCond a b then .sameDocument
     else if (nsegs (split a).path).head? == some []
         || (nsegs (Path.parent_or_empty (split b).path)).head? == some [] then .rootlessOther else .classRootless
